@@ -952,7 +952,7 @@ impl TextPane for Buffer {
                     }
                 }
                 crate::Mode::Chars => {
-                    if !ch.is_transparent() {
+                    if ch.is_visible() && !ch.is_transparent() {
                         ch_opt = Some(ch.ch);
                     }
                 }
